@@ -152,6 +152,7 @@ struct C16Case {
     commands: Vec<String>,
     snapshot_after: usize,
     applied_during_snapshot: usize,
+    apply_in_flight_when_snapshot_starts: bool,
 }
 
 async fn c16_case(
@@ -161,6 +162,7 @@ async fn c16_case(
     log: &[Command],
     k: usize,
     during: usize,
+    in_flight: bool,
 ) -> Result<Vec<(String, String)>, String> {
     let en = engine.name();
     let n = log.len();
@@ -170,7 +172,23 @@ async fn c16_case(
     for (i, c) in log[..k].iter().enumerate() {
         a.sm.apply_chunk(&entries(std::slice::from_ref(c), i as u64 + 1, 1)).await.map_err(|e| format!("apply: {e:?}"))?;
     }
-    let (meta, _path) = if during > 0 {
+    let (meta, _path) = if during > 0 && in_flight {
+        // an apply is IN FLIGHT (inside the handler, state machine not touched yet) when
+        // create_snapshot starts; it completes while the snapshot task waits its turn
+        a.sm.pause_in_apply.store(true, std::sync::atomic::Ordering::SeqCst);
+        let (h1, h2, sm2) = (a.h.clone(), a.h.clone(), a.sm.clone());
+        let chunk: Vec<d_engine_proto::common::Entry> =
+            log[k..k + during].iter().enumerate().map(|(i, c)| cmd_to_entry(c, (k + i) as u64 + 1, 1)).collect();
+        let applier = tokio::spawn(async move { h2.apply_chunk(chunk).await.map(|_| ()).map_err(|e| format!("apply in flight: {e:?}")) });
+        a.sm.apply_started.notified().await;
+        let snap = tokio::spawn(async move { h1.create_snapshot().await.map_err(|e| format!("create_snapshot: {e:?}")) });
+        for _ in 0..20 {
+            tokio::task::yield_now().await;
+        }
+        sm2.resume_apply.notify_one();
+        applier.await.map_err(|e| format!("join: {e}"))??;
+        snap.await.map_err(|e| format!("join: {e}"))??
+    } else if during > 0 {
         // the apply worker tries to apply the next entries (through the handler, as the real
         // StateMachineWorker does) while create_snapshot sits between its last_applied() read and
         // the data copy
@@ -213,8 +231,11 @@ async fn c16_case(
                 }
                 if got != ref_obs(&states[li]) {
                     let at: Vec<usize> = (0..=n).filter(|j| ref_obs(&states[*j]) == got).collect();
-                    // the handler read last_applied = k; the recorded boundary is k - retained
-                    let why = if li == k.saturating_sub(retained as usize) && at.contains(&k) {
+                    // kr = the applied index at the moment the snapshot was entitled to read it
+                    // (an apply that was in flight before the snapshot started has completed by
+                    // then); the recorded boundary is kr - retained
+                    let kr = if in_flight { k + during } else { k };
+                    let why = if li == kr.saturating_sub(retained as usize) && at.contains(&kr) {
                         "the data is the state at the applied index but the boundary is `retained_log_entries` entries BEHIND it"
                     } else if during > 0 && at.contains(&(k + during)) {
                         "entries applied WHILE the snapshot was being generated are in the data but not in the boundary"
@@ -291,7 +312,7 @@ pub fn run_c16(tier: &str, out: &mut std::fs::File) -> i32 {
     let alpha = c16_alphabet();
     let budget = std::time::Duration::from_secs(if thorough { 1500 } else { 50 });
     let deadline = t0 + budget;
-    let mut items: Vec<(Engine, u64, Vec<Command>, usize, usize)> = vec![];
+    let mut items: Vec<(Engine, u64, Vec<Command>, usize, usize, bool)> = vec![];
     for engine in [Engine::File, Engine::Rocks] {
         let maxlen = match (engine, thorough) {
             (Engine::File, false) => 3,
@@ -303,13 +324,16 @@ pub fn run_c16(tier: &str, out: &mut std::fs::File) -> i32 {
             for retained in 1..=3u64 {
                 for k in 1..=log.len() {
                     for during in 0..=(log.len() - k).min(1) {
-                        items.push((engine, retained, log.clone(), k, during));
+                        items.push((engine, retained, log.clone(), k, during, false));
+                        if during > 0 {
+                            items.push((engine, retained, log.clone(), k, during, true));
+                        }
                     }
                 }
             }
         }
     }
-    items.sort_by_key(|(e, r, l, k, d)| (l.len(), *e == Engine::Rocks, *r, *k, *d));
+    items.sort_by_key(|(e, r, l, k, d, f)| (l.len(), *e == Engine::Rocks, *r, *k, *d, *f));
     let total = items.len();
     let queue = Arc::new(Mutex::new(std::collections::VecDeque::from(items)));
     let found: Arc<Mutex<Vec<(String, serde_json::Value)>>> = Arc::new(Mutex::new(vec![]));
@@ -325,7 +349,7 @@ pub fn run_c16(tier: &str, out: &mut std::fs::File) -> i32 {
             let (mut n, mut capped, mut errs) = (0u64, false, vec![]);
             loop {
                 let item = queue.lock().unwrap().pop_front();
-                let Some((engine, retained, log, k, during)) = item else { break };
+                let Some((engine, retained, log, k, during, in_flight)) = item else { break };
                 if Instant::now() > deadline {
                     capped = true;
                     break;
@@ -337,8 +361,9 @@ pub fn run_c16(tier: &str, out: &mut std::fs::File) -> i32 {
                     commands: log.iter().map(describe).collect(),
                     snapshot_after: k,
                     applied_during_snapshot: during,
+                    apply_in_flight_when_snapshot_starts: in_flight,
                 };
-                match rt.block_on(c16_case(engine, &scratch, retained, &log, k, during)) {
+                match rt.block_on(c16_case(engine, &scratch, retained, &log, k, during, in_flight)) {
                     Ok(v) => {
                         for (class, detail) in v {
                             found.lock().unwrap().push((class, json!({"case": case, "detail": detail})));
